@@ -35,6 +35,12 @@ TraceCopy   == E.ev = "copy" /\ Create(heap[E.id]) /\ (IF Agrees(E.obj, heap[E.i
 TraceMove   == /\ E.ev = "move" /\ Move(E.id, E.v)
                /\ IF ~Agrees(E.post, heap'[E.id]) THEN Fail("C07.receiver")
                   ELSE IF ~Agrees(E.ret, heap'[E.id]) THEN Fail("C07.return_value") ELSE UNCHANGED bad
+\* derived objects: the specification's NegObj / MoveKeep actions (the driver keeps to their guards: two per session, owning kinds)
+TraceNeg    == /\ E.ev = "neg" /\ NegObj(E.id)
+               /\ IF Agrees(E.obj, heap'[Len(heap')]) THEN UNCHANGED bad ELSE Fail("C09.neg")
+TraceMoveKeep == /\ E.ev = "movekeep" /\ MoveKeep(E.id, E.v)
+                 /\ IF ~Agrees(E.post, heap'[E.id]) THEN Fail("C07.receiver")
+                    ELSE IF ~Agrees(E.ret, heap'[Len(heap')]) THEN Fail("C07.return_value") ELSE UNCHANGED bad
 \* a pure query: the specification's state does not change; the logged answer is compared with the exact one
 TraceQuery  == /\ E.ev = "query" /\ UNCHANGED <<heap, orig, disp, args, ncopy>> /\ Step([act |-> "Query", op |-> E.op, i |-> E.i, j |-> E.j])
                /\ LET a == heap[E.i]  b == heap[E.j]
@@ -48,7 +54,7 @@ TraceQuery  == /\ E.ev = "query" /\ UNCHANGED <<heap, orig, disp, args, ncopy>> 
 \* at the end of a session every object is observed again: nothing but Move may have changed it (purity, ownership, deep-copy independence)
 TraceSnap   == /\ E.ev = "snap" /\ UNCHANGED <<heap, orig, disp, args, ncopy, hist>>
                /\ IF Agrees(E.obj, heap[E.id]) THEN UNCHANGED bad ELSE Fail("C20.state")
-TraceNext == tid <= Len(Traces) /\ (TraceReset \/ TraceCreate \/ TraceCopy \/ TraceMove \/ TraceQuery \/ TraceSnap) /\ Advance
+TraceNext == tid <= Len(Traces) /\ (TraceReset \/ TraceCreate \/ TraceCopy \/ TraceMove \/ TraceNeg \/ TraceMoveKeep \/ TraceQuery \/ TraceSnap) /\ Advance
 TraceInit == tid = 1 /\ l = 1 /\ bad = <<>> /\ heap = <<>> /\ orig = <<>> /\ disp = <<>> /\ args = <<>> /\ ncopy = <<>> /\ hist = <<>>
 TraceSpec == TraceInit /\ [][TraceNext]_tvars
 NEvents == SE!FoldLeft(LAMBDA acc, s : acc + Len(s), 0, Traces)        \* (iterative: a recursive sum overflows the Java stack on thousands of sessions)
